@@ -90,9 +90,9 @@ func runByz(e *Env) {
 	var ms0 runtime.MemStats
 	runtime.ReadMemStats(&ms0)
 
-	proto := []int{4, 3, 5, 2}[tp.Next(4)]
+	proto := []int{4, 3, 5, 2, 1}[tp.Next(5)]
 	ctrl := tp.Next(3) != 1
-	auth := tp.Chance(1, 5)
+	auth := tp.Chance(1, 5) && proto > 1
 	compress := tp.Chance(1, 5)
 	nTasks := 1 + tp.Next(2)
 	nOps := 2 + tp.Next(5)
@@ -102,6 +102,20 @@ func runByz(e *Env) {
 	e.Note("compress", compress)
 	garbageCells := !e.NoFaults && tp.Chance(1, 3)
 	e.Note("garbageCells", garbageCells)
+	// a node older than Cassandra 3.0: the driver then reads the old schema tables
+	// (system.schema_*: marshal-class validators and comparators, JSON alias lists)
+	legacy := ""
+	if ctrl && (proto <= 2 || tp.Chance(1, 4)) && proto < 5 {
+		legacy = []string{"2.1.13", "2.2.8", "2.0.17"}[tp.Next(3)]
+		cl.Hosts[0].Version = legacy
+		k.Fault("byz.pre-3.0-schema-tables")
+	}
+	e.Note("legacy", legacy)
+	// the statement does not bind the whole partition key: a PREPARED result without
+	// partition-key indexes, so that routing information comes from the schema tables
+	pkLess := ctrl && tp.Chance(1, 5)
+	// pages of one result that do not agree on their columns
+	shiftyPages := !e.NoFaults && tp.Chance(1, 4)
 
 	cfg := BaseConfig(cl, "10.0.0.1")
 	if !ctrl {
@@ -250,6 +264,9 @@ func runByz(e *Env) {
 			}
 			tok := tokenRe.FindString(rq.Query)
 			cols := genCols()
+			if strings.Contains(rq.Query, " IF ") && tp.Chance(1, 2) {
+				cols = append([]wireCol{{name: "[applied]", t: wType{ID: cqlspec.TBoolean}}}, cols...)
+			}
 			id := []byte("id:" + tok)
 			prepCols[string(id)] = cols
 			pm := &cqlspec.PreparedMeta{GlobalSpec: true, Columns: []cqlspec.ColSpec{{Keyspace: "ks", Table: "t", Name: "c0", Type: cqlspec.ColType{ID: cqlspec.TVarchar}}}}
@@ -261,12 +278,18 @@ func runByz(e *Env) {
 				}
 				k.Fault("byz.varied-bind-metadata")
 			}
-			if proto >= 4 {
+			if proto >= 4 && !pkLess {
 				pm.PKIndices = []uint16{0}
 				if tp.Chance(1, 8) {
 					pm.PKIndices = []uint16{uint16(tp.Next(4)), uint16(tp.Next(300))}
 					k.Fault("byz.odd-pk-indexes")
 				}
+			}
+			if !e.NoFaults && tp.Chance(1, 12) {
+				// a flag the specification does not define for bind metadata: columns
+				// announced, none described
+				pm.NoMetadata = true
+				k.Fault("byz.prepared-without-bind-metadata")
 			}
 			r := wireResp{cols: cols, global: true}
 			cl.Send(sc, rec, &cqlspec.Response{Op: cqlspec.OpResult, Kind: cqlspec.KindPrepared, PreparedID: id, Prepared: pm, PreparedRows: wireRowsMeta(&r, false)}, node.Auto, "PREPARED "+tok)
@@ -301,6 +324,9 @@ func runByz(e *Env) {
 				}
 			} else {
 				cols = genCols()
+				if strings.Contains(rq.Query, " IF ") && tp.Chance(1, 2) {
+					cols = append([]wireCol{{name: "[applied]", t: wType{ID: cqlspec.TBoolean}}}, cols...)
+				}
 			}
 			switch tp.Weighted([]int{8, 2, 2}) {
 			case 1:
@@ -315,7 +341,23 @@ func runByz(e *Env) {
 					if pages[tok] < 3 {
 						more = []byte(fmt.Sprintf("st:%s:%d", tok, pages[tok]))
 					}
-					if rq.Header.Opcode == cqlspec.OpQuery {
+					if first, seen := prepCols["q:"+tok]; rq.Header.Opcode == cqlspec.OpQuery && shiftyPages && seen {
+						k.Fault("byz.page-with-other-columns")
+						if tp.Chance(1, 2) {
+							// as many values per row as before, in another number of columns:
+							// tuple columns come back as one column per element
+							cols = nil
+							for _, c := range first {
+								if c.t.ID == cqlspec.TTuple && len(c.t.Elems) > 0 {
+									for j, et := range c.t.Elems {
+										cols = append(cols, wireCol{name: fmt.Sprintf("%s_%d", c.name, j), t: et})
+									}
+								} else {
+									cols = append(cols, c)
+								}
+							}
+						}
+					} else if rq.Header.Opcode == cqlspec.OpQuery {
 						// all pages of one query share their columns
 						if c, ok := prepCols["q:"+tok]; ok {
 							cols = c
@@ -327,7 +369,14 @@ func runByz(e *Env) {
 				cl.Send(sc, rec, rowsResp(cols, noMeta, more), node.Auto, "ROWS "+tok)
 			}
 		case cqlspec.OpBatch:
-			cl.Send(sc, rec, &cqlspec.Response{Op: cqlspec.OpResult, Kind: cqlspec.KindVoid}, node.Auto, "VOID batch")
+			switch tp.Weighted([]int{4, 2, 2}) {
+			case 1: // what a conditional batch is answered with
+				cl.Send(sc, rec, rowsResp(append([]wireCol{{name: "[applied]", t: wType{ID: cqlspec.TBoolean}}}, genCols()...), false, nil), node.Auto, "ROWS batch")
+			case 2:
+				cl.Send(sc, rec, rowsResp(genCols(), false, nil), node.Auto, "ROWS batch")
+			default:
+				cl.Send(sc, rec, &cqlspec.Response{Op: cqlspec.OpResult, Kind: cqlspec.KindVoid}, node.Auto, "VOID batch")
+			}
 		default:
 			cl.SendError(sc, rec, cqlspec.ErrProtocol, "unexpected", node.Auto)
 		}
@@ -375,12 +424,12 @@ func runByz(e *Env) {
 		kinds := make([]int, nOps)
 		cons := make([]int, nOps)
 		for i := range kinds {
-			kinds[i] = tp.Weighted([]int{4, 4, 1, 2, 2, 2})
+			kinds[i] = tp.Weighted([]int{4, 4, 1, 2, 2, 2, 2})
 			if kinds[i] == 4 && (ti != 0 || !ctrl) {
 				// schema lookups hold a driver mutex across their queries: one caller only
 				kinds[i] = 0
 			}
-			if kinds[i] == 4 {
+			if kinds[i] == 4 || (kinds[i] == 1 && ti == 0 && (pkLess || proto < 4) && ctrl) {
 				hasSchemaOps = true
 			}
 			cons[i] = tp.Next(4)
@@ -399,9 +448,13 @@ func runByz(e *Env) {
 						byzConsume(sess.Query("ECHO '"+token+"'").WithContext(ctx).Iter(), cons[oi])
 					case 1:
 						q := sess.Query("SELECT * FROM ks.t /*"+token+"*/ WHERE c0 = ?", token).WithContext(ctx)
-						if proto >= 4 && cons[oi]%2 == 0 {
+						if proto >= 4 && !pkLess && cons[oi]%2 == 0 {
 							// what a token-aware policy does first: routing key from the
 							// partition-key indexes of the PREPARED result
+							_, _ = q.GetRoutingKey()
+						} else if (pkLess || proto < 4) && ctrl && ti == 0 && cons[oi]%2 == 0 {
+							// ... or, without indexes, from the table's schema (one caller only:
+							// schema lookups hold a driver mutex across their queries)
 							_, _ = q.GetRoutingKey()
 						}
 						byzConsume(q.Iter(), cons[oi])
@@ -427,6 +480,29 @@ func runByz(e *Env) {
 						_ = sess.ExecuteBatch(b)
 					case 4:
 						_, _ = sess.KeyspaceMetadata("ks")
+					case 6:
+						// conditional statements: the four *CAS consumers expect an [applied]
+						// column first; the node answers like for any other statement
+						switch cons[oi] {
+						case 0:
+							_, _ = sess.Query("UPDATE ks.t /*"+token+"*/ SET a = 1 WHERE c0 = ? IF a = 0", token).WithContext(ctx).MapScanCAS(map[string]interface{}{})
+						case 1:
+							var a, b2 interface{}
+							_, _ = sess.Query("INSERT INTO ks.t /*"+token+"*/ (a) VALUES (1) IF NOT EXISTS").WithContext(ctx).ScanCAS(&a, &b2)
+						case 2:
+							b := sess.NewBatch(gocql.LoggedBatch).WithContext(ctx)
+							b.Query("UPDATE ks.t /*"+token+"*/ SET a = 1 WHERE c0 = ? IF a = 0", token)
+							if _, it, err := sess.MapExecuteBatchCAS(b, map[string]interface{}{}); err == nil && it != nil {
+								_ = it.Close()
+							}
+						default:
+							b := sess.NewBatch(gocql.LoggedBatch).WithContext(ctx)
+							b.Query("UPDATE ks.t /*"+token+"*/ SET a = 1 WHERE c0 = ? IF a = 0", token)
+							var a interface{}
+							if _, it, err := sess.ExecuteBatchCAS(b, &a); err == nil && it != nil {
+								_ = it.Close()
+							}
+						}
 					case 3:
 						// Prefetch(0): an asynchronous prefetch would make the consumer block on the
 						// sync.Once inside nextIter.fetch, which synctest cannot see through
